@@ -132,17 +132,17 @@ Section Spec.
         destruct (prio x =? q) eqn:E; [apply Z.eqb_eq in E; congruence | exact HF].
   Qed.
 
-  (* these three properties determine the result: any list that is a stable sorted permutation of l IS
-     tree_sort l (so the model equals Go's sort.SliceStable, whose contract is exactly this).
-     The last two hypotheses are not needed. *)
+  (* sortedness and stability determine the result: any list that is sorted by descending priority and has,
+     for every priority p, the same subsequence of priority-p elements as l IS tree_sort l (so the model
+     equals Go's sort.SliceStable, whose contract is: a sorted permutation that keeps equal elements in
+     their original order).  That l' is a permutation of l need not be assumed: it follows from the
+     equations of the second premise. *)
   Theorem sort_unique : forall l l',
     StronglySorted (fun a b => prio b <= prio a) l' ->
     (forall p, filter (fun x => prio x =? p) l' = filter (fun x => prio x =? p) l) ->
-    (forall x, In x l' -> exists p, prio x = p) ->   (* trivial; kept for symmetry *)
-    Permutation l' l ->
     l' = tree_sort l.
   Proof.
-    intros l l' HS HF _ _. apply sorted_filters_eq; [exact HS | apply sort_sorted |].
+    intros l l' HS HF. apply sorted_filters_eq; [exact HS | apply sort_sorted |].
     intros p. rewrite HF, sort_stable. reflexivity.
   Qed.
 
